@@ -759,6 +759,11 @@ func NewFilledFeatureReferences(byID *FeaturesByID) *FeatureReferencesByID {
 func (f *FeatureReferencesByID) findReferences(id b6.FeatureID, m *map[b6.Reference]bool) {
 	if references, ok := (*f)[id]; ok {
 		for _, reference := range references {
+			if (*m)[reference] {
+				// Already visited: references can form cycles (eg relations
+				// that contain each other, or themselves).
+				continue
+			}
 			(*m)[reference] = true
 			f.findReferences(reference.Source(), m)
 		}
